@@ -386,8 +386,11 @@ def check(prop: str, tier: str) -> int:
         wall_s=round(wall, 2),
         violations=len(vio_lines),
     )
-    os.makedirs(os.path.join(ROOT, "evidence"), exist_ok=True)
-    with open(os.path.join(ROOT, "evidence", f"{prop}.json"), "w") as fh:
+    # experiments against a scratch copy (VERIF_REPO=<dir>) must not overwrite the evidence of /repo
+    ev_dir = os.path.join(ROOT, "evidence") if os.environ.get("VERIF_REPO", "/repo") == "/repo" else \
+        os.path.join(os.environ.get("VERIF_REPO"), ".verif-evidence")
+    os.makedirs(ev_dir, exist_ok=True)
+    with open(os.path.join(ev_dir, f"{prop}.json"), "w") as fh:
         json.dump(ev, fh, indent=1, default=str)
     print(f"{prop} {tier}: contracts={n} obligations={n_obl} discharged={n_dis} refuted={len(violations)} "
           f"known={len(known_hits)} undecided={len(undecided)} wall={wall:.1f}s exit={exit_code}")
@@ -418,12 +421,35 @@ def replay(path: str) -> int:
     return 1 if rep.get("reproduced") else 0
 
 
+def known() -> int:
+    """Replay every known (unrepaired) finding natively with its switch on: each must still reproduce on this tree."""
+    rc = 0
+    for k in load_known():
+        if k.get("status") != "known":
+            continue
+        script = os.path.join(ROOT, "harness", f"{k['property']}_replay.py")
+        p = subprocess.run(["/venv/bin/python", script], input="{}", capture_output=True, text=True, timeout=600, cwd=ROOT,
+                           env={**os.environ, **k.get("native_replay_env", {}),
+                                "PYTHONPATH": os.environ.get("VERIF_REPO", "/repo") + "/src"})
+        try:
+            rep = json.loads((p.stdout.strip().splitlines() or ["{}"])[-1])
+        except json.JSONDecodeError:
+            rep = {}
+        ok = bool(rep.get("reproduced"))
+        print(f"KNOWN-FINDING: property={k['property']} {'reproduced' if ok else 'NOT reproduced (repaired? then record it as fixed)'}: "
+              f"{json.dumps(rep.get('detail'), default=str)[:300]}")
+        rc = rc or (0 if ok else 2)
+    return rc
+
+
 def main(argv):
     if len(argv) >= 2 and argv[0] == "replay":
         return replay(argv[1])
     if argv and argv[0] == "baseline":
         baseline()
         return 0
+    if argv and argv[0] == "known":
+        return known()
     if len(argv) < 1:
         print(__doc__)
         return 3
